@@ -586,6 +586,25 @@ static int compare(const Case *c, int from)
    return -1;
 }
 
+/* The encoder itself may overwrite the application's force_channels setting with 1 (opus_encoder.c:1687, a
+   stereo->mono transition inside a multi-frame packet).  "The same settings" are the ones the getters report,
+   so the value is copied from the reset object to the new one — per stream for multistream / projection. */
+static void sync_force_channels(Case *c, Obj *a, Obj *b)
+{
+   opus_int32 fc = 0; int s;
+   if (c->kind == K_ENC) {
+      if (opus_encoder_ctl((OpusEncoder *)a->p, OPUS_GET_FORCE_CHANNELS(&fc)) == OPUS_OK)
+         opus_encoder_ctl((OpusEncoder *)b->p, OPUS_SET_FORCE_CHANNELS(fc));
+   } else if (c->kind == K_MSENC || c->kind == K_PROJENC) {
+      for (s = 0; s < 256; s++) {
+         OpusEncoder *ea = NULL, *eb = NULL;
+         if (ECTL(a, OPUS_MULTISTREAM_GET_ENCODER_STATE(s, &ea)) != OPUS_OK || !ea) break;
+         if (ECTL(b, OPUS_MULTISTREAM_GET_ENCODER_STATE(s, &eb)) != OPUS_OK || !eb) break;
+         if (opus_encoder_ctl(ea, OPUS_GET_FORCE_CHANNELS(&fc)) == OPUS_OK) opus_encoder_ctl(eb, OPUS_SET_FORCE_CHANNELS(fc));
+      }
+   }
+}
+
 static int run_case(int mode, Case *c)
 {
    Obj a, b; int i, err;
@@ -606,11 +625,7 @@ static int run_case(int mode, Case *c)
       g_fill = 0x5A; b = obj_new(c);
       for (i = 0; i < c->cut; i++)
          if (c->ops[i].type == OP_SET && g_ra[i].ret == OPUS_OK) { Rec t; run_op(c, &b, &c->ops[i], &t); }
-      if (c->kind == K_ENC) {             /* the encoder may itself have forced mono (opus_encoder.c:1676) */
-         opus_int32 fc = 0;
-         if (opus_encoder_ctl((OpusEncoder *)a.p, OPUS_GET_FORCE_CHANNELS(&fc)) == OPUS_OK)
-            opus_encoder_ctl((OpusEncoder *)b.p, OPUS_SET_FORCE_CHANNELS(fc));
-      }
+      sync_force_channels(c, &a, &b);
       for (i = c->cut; i < c->nops; i++) {
          run_op(c, &a, &c->ops[i], &g_ra[i]); run_op(c, &b, &c->ops[i], &g_rb[i]);
          if (c->ops[i].type == OP_GET && (c->kind == K_MSENC || c->kind == K_PROJENC)) {
